@@ -288,7 +288,7 @@ func child(c *vf.Ctx) {
 		}
 		t0 := time.Now()
 		var tr *chainsim.TxResult
-		pv := vf.Try(func() { tr = ch.OneTx([]std.Msg{msg}, chainsim.Fee(200_000_000, 1_000_000), u) })
+		pv := vf.Try(func() { tr = ch.OneTx([]std.Msg{msg}, chainsim.Fee(childGasLimit, 1_000_000), u) })
 		el := time.Since(t0)
 		outcome, detail := "success", ""
 		switch {
@@ -428,6 +428,10 @@ func runBatch(c *vf.Ctx, bi int, idxs []int, inputs, names []string) {
 		var peakKB int64
 		lastProgress, lastChange := -1, time.Now()
 		killedFor := ""
+		// CPU seconds of the child at the moment the current input started; maxDone = the most CPU any
+		// finished input of this child needed. "Does not stop" is decided on CPU time consumed by the node
+		// process on one input (independent of machine load), never on wall-clock time.
+		cpuAtChange, maxDone, cpuNow := 0.0, 0.0, 0.0
 	loop:
 		for {
 			select {
@@ -439,11 +443,20 @@ func runBatch(c *vf.Ctx, bi int, idxs []int, inputs, names []string) {
 				peakKB = kb
 			}
 			cur := lastStarted(batchFile + ".progress")
+			if t := cpuSeconds(cmd.Process.Pid); t > 0 {
+				cpuNow = t
+			}
 			if cur != lastProgress {
-				lastProgress, lastChange = cur, time.Now()
+				if lastProgress >= 0 && cpuNow-cpuAtChange > maxDone {
+					maxDone = cpuNow - cpuAtChange
+				}
+				lastProgress, lastChange, cpuAtChange = cur, time.Now(), cpuNow
 			}
 			if peakKB > rssLimitKB {
 				killedFor = "rss"
+				cmd.Process.Kill()
+			} else if cpuNow-cpuAtChange > cpuHangSeconds {
+				killedFor = "cpu"
 				cmd.Process.Kill()
 			} else if time.Since(lastChange) > 240*time.Second {
 				killedFor = "watchdog"
@@ -489,6 +502,10 @@ func runBatch(c *vf.Ctx, bi int, idxs []int, inputs, names []string) {
 		switch killedFor {
 		case "rss":
 			c.Violation("memory-above-limit:"+kindOf(names[culprit]), w, "input %s: child RSS reached %d MB (> %d MB = 8 x allocation limit)", names[culprit], peakKB/1024, rssLimitKB/1024)
+		case "cpu":
+			w["cpu_seconds_on_this_input"] = int(cpuNow - cpuAtChange)
+			w["max_cpu_seconds_of_any_finished_input_of_this_child"] = int(maxDone)
+			c.Violation("does-not-stop:"+kindOf(names[culprit]), w, "input %s: the node process burned %d CPU-seconds on this one transaction without finishing it (gas limit %d; the most expensive finished input of the same child needed %.1f CPU-seconds): the VM does not stop within its gas limit", names[culprit], int(cpuNow-cpuAtChange), childGasLimit, maxDone)
 		case "watchdog":
 			c.Count("watchdog_kills", 1)
 			c.Inconclusive(fmt.Sprintf("watchdog: input %s made no progress for 240 s (hang or very slow under load) — rerun in isolation", names[culprit]))
@@ -505,6 +522,33 @@ func runBatch(c *vf.Ctx, bi int, idxs []int, inputs, names []string) {
 		c.Count("children_died", 1)
 		pos += done2 + 1
 	}
+}
+
+// cpuHangSeconds: CPU time (user+system, all threads) one transaction may consume in the node
+// process before the run is declared non-terminating. Finished inputs need well under 30 s.
+const cpuHangSeconds = 180.0
+
+// childGasLimit is the gas every input is submitted with.
+const childGasLimit = 200_000_000
+
+// cpuSeconds reads utime+stime of a process from /proc (clock ticks of 1/100 s).
+func cpuSeconds(pid int) float64 {
+	b, err := os.ReadFile(fmt.Sprintf("/proc/%d/stat", pid))
+	if err != nil {
+		return 0
+	}
+	s := string(b)
+	i := strings.LastIndexByte(s, ')')
+	if i < 0 {
+		return 0
+	}
+	f := strings.Fields(s[i+1:])
+	if len(f) < 13 {
+		return 0
+	}
+	ut, _ := strconv.ParseFloat(f[11], 64)
+	st, _ := strconv.ParseFloat(f[12], 64)
+	return (ut + st) / 100
 }
 
 func kindOf(name string) string {
